@@ -440,8 +440,36 @@ def _post_distribution(mon, call):
         mon.ok(f"{name}[>= 65536 shots]")
 
 
+class OneShot:
+    """a one-shot iterable of marked qubits (the signatures say Iterable[int]): can be walked exactly once; the
+    monitors read what it held from ``_rv_items``"""
+
+    def __init__(self, items):
+        self._rv_items = [int(x) for x in items]
+        self._it = iter(self._rv_items)
+
+    def __iter__(self):
+        return self
+
+    def __next__(self):
+        return next(self._it)
+
+    def __repr__(self):
+        return f"OneShot({self._rv_items!r})"
+
+
+def _nmarked(q):
+    return len(q._rv_items) if isinstance(q, OneShot) else len(list(q))
+
+
 def _snapshot_qubits(q):
     """marked-qubit collections that can be read without consuming them"""
+    if isinstance(q, OneShot):
+        return list(q._rv_items)
+    if isinstance(q, np.ndarray) and q.ndim == 1 and (q.dtype.kind in "iu" or q.size == 0):
+        return [int(x) for x in q.tolist()]
+    if isinstance(q, type({}.keys())):
+        q = list(q)
     if isinstance(q, (tuple, list, set, frozenset, range)):
         qs = list(q)
         if all(_is_int(x) for x in qs):
@@ -695,7 +723,15 @@ def _marked(rng, width, allow_dup=False):
     qs = rng.sample(range(width), k)
     if allow_dup and qs and rng.random() < 0.15:
         qs.append(rng.choice(qs))
-    kind = rng.choice(["tuple", "list", "set", "frozenset", "range"])
+    kind = rng.choice(["tuple", "list", "set", "frozenset", "range", "ndarray", "np-ints", "dict-keys", "one-shot"])
+    if kind == "ndarray":
+        return np.array(qs, dtype=int)
+    if kind == "np-ints":
+        return [np.int64(q) for q in qs]
+    if kind == "dict-keys":
+        return dict.fromkeys(qs).keys()
+    if kind == "one-shot":
+        return OneShot(qs)
     if kind == "tuple":
         return tuple(qs)
     if kind == "list":
@@ -967,7 +1003,11 @@ def _desc_wide(shots):
 
 
 def _marked_as(rng, qs, width):
-    kind = rng.choice(["tuple", "list", "set", "frozenset", "range"])
+    kind = rng.choice(["tuple", "list", "set", "frozenset", "range", "ndarray", "one-shot"])
+    if kind == "ndarray":
+        return np.array(list(qs), dtype=int)
+    if kind == "one-shot":
+        return OneShot(qs)
     if kind == "range":
         a = rng.choice(qs) if qs else 0
         return range(a, min(width, a + rng.randint(1, 9)))
@@ -1026,7 +1066,7 @@ def _run_wide(ctx):
     marked = _marked_as(rng, list(terms[0][0]), width)
     if sub == "freq":
         freqs = G.counts_of(shots)
-        ctx.describe(f"wide freq marked={marked!r} {_desc_wide(shots)}", distinct >= 2 and len(list(marked)) >= 1)
+        ctx.describe(f"wide freq marked={marked!r} {_desc_wide(shots)}", distinct >= 2 and _nmarked(marked) >= 1)
         get_expectation_value_from_frequencies(marked, freqs)
         return
     if sub == "parity":
@@ -1034,12 +1074,12 @@ def _run_wide(ctx):
         form = rng.choice(["str", "tuple", "list", "np"])
         b = {"str": "".join(map(str, bits)), "tuple": bits, "list": list(bits),
              "np": tuple(np.int64(x) for x in bits)}[form]
-        ctx.describe(f"wide parity scalar {form} 0x{W.hex_of(bits)} w={width} marked={marked!r}", len(list(marked)) >= 1)
+        ctx.describe(f"wide parity scalar {form} 0x{W.hex_of(bits)} w={width} marked={marked!r}", _nmarked(marked) >= 1)
         check_parity(b, marked)
         return
     dt = rng.choice([int, np.int8, np.uint8, np.int64])
     ctx.describe(f"wide parity vector {dt.__name__} {_desc_wide(shots)} marked={marked!r}",
-                 len(list(marked)) >= 1 and distinct >= 2)
+                 _nmarked(marked) >= 1 and distinct >= 2)
     check_parity_of_vector(np.array(shots, dtype=dt), marked)
 
 
@@ -1056,7 +1096,7 @@ def _run_large(ctx):
         width = rng.choice([1, 2, 3, rng.randint(1, 8), W.rand_width(rng)])
         freqs = W.rand_huge_counts(rng, width)
         marked = _marked(rng, width) if width <= 8 else _marked_as(rng, list(W.rand_wide_terms(rng, width)[1][0][0]), width)
-        ctx.describe(f"large hist marked={marked!r} freqs={sorted(freqs.items())!r}", len(list(marked)) >= 1)
+        ctx.describe(f"large hist marked={marked!r} freqs={sorted(freqs.items())!r}", _nmarked(marked) >= 1)
         get_expectation_value_from_frequencies(marked, freqs)
         return
     if sub == "terms":
@@ -1235,7 +1275,7 @@ def run_case(ctx):
             freqs = dict(Counter(freqs))
         marked = _marked(rng, width, allow_dup=True)
         ctx.describe(f"freq marked={marked!r} freqs={sorted(freqs.items())!r}",
-                     sum(1 for v in freqs.values() if v) >= 2 and len(list(marked)) >= 1)
+                     sum(1 for v in freqs.values() if v) >= 2 and _nmarked(marked) >= 1)
         mon.note(f"marked:{type(marked).__name__}")
         get_expectation_value_from_frequencies(marked, freqs)
         return
@@ -1254,13 +1294,13 @@ def run_case(ctx):
                 b = list(bits)
             else:
                 b = tuple(np.int64(x) for x in bits)
-            ctx.describe(f"parity scalar {form} {bits!r} marked={marked!r}", len(list(marked)) >= 1)
+            ctx.describe(f"parity scalar {form} {bits!r} marked={marked!r}", _nmarked(marked) >= 1)
             check_parity(b, marked)
         else:
             sstyle, shots = G.rand_shots(rng, width, max_shots=30)
             dt = rng.choice([int, np.int8, np.uint8, np.int64])
             ctx.describe(f"parity vector {dt.__name__} rows={shots!r} marked={marked!r}",
-                         len(list(marked)) >= 1 and len(set(shots)) >= 2)
+                         _nmarked(marked) >= 1 and len(set(shots)) >= 2)
             check_parity_of_vector(np.array(shots, dtype=dt), marked)
         return
 
